@@ -53,7 +53,7 @@ func c14Extras(k *Key) {
 func H_C14_ec_private() {
 	c := vCurve("curve")
 	size := refFieldSize(c)
-	sk := vECKey("key", c)
+	sk := vECKeyValid("key", c) // a genuine pair: a consistency check between d and (x, y) would be legitimate
 	k, err := NewKeyFromPrivate(sk)
 	vAssert("ec: every in-range key converts to a COSE_Key", err == nil)
 	if err != nil {
@@ -116,7 +116,7 @@ func H_C14_ec_private() {
 func H_C14_ec_public() {
 	c := vCurve("curve")
 	size := refFieldSize(c)
-	sk := vECKey("key", c)
+	sk := vECKeyValid("key", c)
 	vAssume(sk.X.Sign() != 0)
 	vAssume(sk.Y.Sign() != 0)
 	k, err := NewKeyFromPublic(&sk.PublicKey)
